@@ -1,14 +1,29 @@
 package main
 
-// C01 (and the shared end-to-end stream used by C02/C04/C15/C16): fault-free federated queries over generated data.
+// The end-to-end streams: one generator, several profiles (C01 fault-free, C02/C05 faults and non-conforming data,
+// C03 permissions, C14 hostile strings, C15 directives, C16 mutations).
 
 import (
+	"encoding/json"
 	"fmt"
 	"math/rand"
+	"os"
+	"sort"
 	"strings"
+
+	"github.com/movio/bramble"
+	"github.com/vektah/gqlparser/v2/ast"
 )
 
-func init() { props["c01"] = runC01 }
+func init() {
+	props["c01"] = func(cfg runCfg) error { return runProfile(cfg, "c01") }
+	props["c02"] = func(cfg runCfg) error { return runProfile(cfg, "c02") }
+	props["c03"] = func(cfg runCfg) error { return runProfile(cfg, "c03") }
+	props["c05"] = func(cfg runCfg) error { return runProfile(cfg, "c05") }
+	props["c14"] = func(cfg runCfg) error { return runProfile(cfg, "c14") }
+	props["c15"] = func(cfg runCfg) error { return runProfile(cfg, "c15") }
+	props["c16"] = func(cfg runCfg) error { return runProfile(cfg, "c16") }
+}
 
 const e2eImports = "From V Require Import Base.Util Gql.Ast Gql.RefExec Model.Perm Model.Plan Model.Gateway Corr.E2ECheck."
 
@@ -27,10 +42,63 @@ func featureVector(run *e2eRun) string {
 		strings.Contains(q, "@skip") || strings.Contains(q, "@include"), strings.Contains(q, "$"))
 }
 
-func runC01(cfg runCfg) error {
+var faultKinds = []string{"status", "transport", "timeout", "toolarge", "badjson", "errors_null", "errors_partial"}
+
+// genPerm draws a permission tree over the merged schema: allow-all, list form, nested form, empty leaves.
+func genPerm(r *rand.Rand, s *ast.Schema, def *ast.Definition, depth int) bramble.AllowedFields {
+	if r.Intn(5) == 0 || depth == 0 {
+		return bramble.AllowedFields{AllowAll: true}
+	}
+	m := map[string]bramble.AllowedFields{}
+	for _, f := range def.Fields {
+		if strings.HasPrefix(f.Name, "__") || r.Intn(3) == 0 {
+			continue
+		}
+		ft := s.Types[f.Type.Name()]
+		if ft == nil || ft.Kind == ast.Scalar || ft.Kind == ast.Enum {
+			if r.Intn(4) == 0 {
+				m[f.Name] = bramble.AllowedFields{AllowedSubfields: map[string]bramble.AllowedFields{}} // documented empty-leaf form
+			} else {
+				m[f.Name] = bramble.AllowedFields{AllowAll: true}
+			}
+			continue
+		}
+		if ft.IsAbstractType() {
+			// the same sub-tree governs every possible type: draw it over the union of their fields
+			sub := bramble.AllowedFields{AllowAll: r.Intn(2) == 0}
+			if !sub.AllowAll {
+				sub.AllowedSubfields = map[string]bramble.AllowedFields{}
+				for _, pt := range s.PossibleTypes[ft.Name] {
+					for k, v := range genPerm(r, s, pt, depth-1).AllowedSubfields {
+						sub.AllowedSubfields[k] = v
+					}
+				}
+			}
+			m[f.Name] = sub
+			continue
+		}
+		m[f.Name] = genPerm(r, s, ft, depth-1)
+	}
+	return bramble.AllowedFields{AllowedSubfields: m}
+}
+
+func runProfile(cfg runCfg, prof string) error {
 	r := rand.New(rand.NewSource(cfg.seed))
-	sum := &summary{Property: "C01", Seed: cfg.seed, Features: map[string]int{}, CaseInputs: map[string]interface{}{},
-		Rule: "fixtures movies/single/tricky x random conforming data graph (nulls, duplicates, entities unknown to a service) x schema-directed random query (depth 2-6, aliases incl. recurring keys, inline/named fragments, abstract types, __typename, arguments, variables); non-trivial = crosses >= 2 services or uses a fragment; distinct by feature vector + query text"}
+	sum := &summary{Property: strings.ToUpper(prof), Seed: cfg.seed, Features: map[string]int{}, CaseInputs: map[string]interface{}{}}
+	sum.Rule = "fixtures movies/single/tricky x random data graph (nulls, duplicates, entities unknown to a service) x schema-directed random operation (depth 2-6, aliases incl. recurring keys, inline/named fragments, abstract types, __typename, arguments, variables)"
+	switch prof {
+	case "c02", "c05":
+		sum.Rule += " x fault assignment (7 fault kinds on a root request, a lookup type, or a whole service; several at once) and, for c02, non-conforming data (null at non-null, resolver errors); each case also records the fault-free answer"
+	case "c03":
+		sum.Rule += " x random permission tree over the merged schema (allow-all, list, nested, empty-leaf forms, abstract types, namespaces)"
+	case "c15":
+		sum.Rule += " with @skip/@include on ~25% of nodes (literal and variable conditions, both on one node, on fragments and spreads)"
+	case "c16":
+		sum.Rule += "; mutations with 1-4 root fields over 1-3 services, namespaced mutations, fragments on Mutation, results extended by other services, faults on the mutation and on follow-up lookups"
+	case "c14":
+		sum.Rule += " with hostile strings (whitespace runs, quotes, escapes, control and non-BMP characters) as literals, variables and ids"
+	}
+	sum.Rule += "; non-trivial = crosses >= 2 services or uses the profile's feature; distinct by feature vector + operation text"
 	w := &caseWriter{dir: cfg.out, shard: 40, check: "check_e2e_case", imports: e2eImports}
 	distinct := map[string]bool{}
 	var envs []*e2eEnv
@@ -44,32 +112,141 @@ func runC01(cfg runCfg) error {
 	}
 	for i := 0; i < cfg.n; i++ {
 		env := envs[[]int{0, 0, 0, 1, 2, 2}[r.Intn(6)]]
-		name := fmt.Sprintf("c01-%d-%d", cfg.seed, i)
-		env.world.data = genData(r, env.fed, dataOpts{nullProb: 0.15, unknownProb: 0.15, safeStrings: r.Intn(3) > 0})
-		env.world.faultFor = nil
-		qo := qOpts{maxDepth: 2 + r.Intn(5), fragments: r.Intn(3) > 0, abstractFrag: r.Intn(4) == 0, aliases: true, recurAlias: r.Intn(3) == 0,
-			typename: true, args: true, variables: r.Intn(2) == 0, safeStrings: true, dupFields: r.Intn(3) == 0}
-		q, vars, doc := genValidQuery(r, env.gw.es.MergedSchema, qo)
-		if doc == nil {
-			return fmt.Errorf("no valid query for %s", env.fx.Name)
+		if prof == "c16" {
+			env = envs[0]
 		}
-		run, err := env.run(q, vars, nil)
+		name := fmt.Sprintf("%s-%d-%d", prof, cfg.seed, i)
+		if os.Getenv("VH_DEBUG") != "" {
+			fmt.Fprintln(os.Stderr, "case", name)
+		}
+		do := dataOpts{nullProb: 0.15, unknownProb: 0.15, safeStrings: prof != "c14" && r.Intn(3) > 0}
+		conforming := true
+		if prof == "c02" && r.Intn(2) == 0 {
+			do.plantBad = true
+			conforming = false
+		}
+		env.world.data = genData(r, env.fed, do)
+		qo := qOpts{maxDepth: 2 + r.Intn(5), fragments: r.Intn(3) > 0, abstractFrag: r.Intn(4) == 0, aliases: true, recurAlias: r.Intn(3) == 0,
+			typename: true, args: true, variables: r.Intn(2) == 0, safeStrings: prof != "c14", dupFields: r.Intn(3) == 0}
+		switch prof {
+		case "c15":
+			qo.directives = true
+		case "c16":
+			qo.mutation = true
+			qo.maxDepth = 1 + r.Intn(4)
+		case "c02", "c05", "c03":
+			qo.fragments = r.Intn(3) == 0 // keep most cases inside the recorded response-shaping guards
+			qo.recurAlias = false
+		}
+		q, vars, doc := env.genBoundedQuery(r, qo, 400)
+		if doc == nil {
+			return fmt.Errorf("no valid operation for %s", env.fx.Name)
+		}
+		opts := e2eCaseOpts{max: 50, conforming: conforming}
+		hdr := map[string]string{}
+		in := map[string]interface{}{"fixture": env.fx.Name, "query": q, "variables": vars}
+		// permissions
+		if prof == "c03" {
+			p := bramble.OperationPermissions{AllowedRootQueryFields: genPerm(r, env.gw.es.MergedSchema, env.gw.es.MergedSchema.Query, 1+r.Intn(4))}
+			if r.Intn(6) == 0 {
+				p = bramble.OperationPermissions{AllowedRootQueryFields: bramble.AllowedFields{AllowAll: true}, AllowedRootMutationFields: bramble.AllowedFields{AllowAll: true}}
+			}
+			env.gw.perm.perms[name] = p
+			hdr["X-Perm"] = name
+			opts.perm = &p
+			pb, _ := json.Marshal(p)
+			in["perm"] = string(pb)
+		}
+		// faults
+		env.world.faultFor = nil
+		var faults []faultSpec
+		if prof == "c05" || (prof == "c02" && r.Intn(3) > 0) || (prof == "c16" && r.Intn(2) == 0) {
+			// fault-free run first
+			run0, err := env.run(q, vars, hdr)
+			if err != nil {
+				return err
+			}
+			opts.data0, opts.hasData0 = run0.Resp.Data, run0.Resp.Data != nil
+			in["fault_free_data"] = fmt.Sprint(run0.Resp.Data)
+			seen := map[string]bool{}
+			var targets [][2]string
+			for _, rq := range run0.Requests {
+				k := rq.Svc + "|" + faultTarget(env.fed, rq)
+				if !seen[k] {
+					seen[k] = true
+					targets = append(targets, [2]string{rq.Svc, faultTarget(env.fed, rq)})
+				}
+			}
+			sort.Slice(targets, func(a, b int) bool { return targets[a][0]+targets[a][1] < targets[b][0]+targets[b][1] })
+			if len(targets) > 0 {
+				switch r.Intn(4) {
+				case 0: // a whole service
+					t := targets[r.Intn(len(targets))]
+					faults = append(faults, faultSpec{Svc: t[0], Target: "*", Kind: faultKinds[r.Intn(5)]})
+					opts.failing = []string{t[0]}
+				case 1: // everything at once
+					k := faultKinds[r.Intn(len(faultKinds))]
+					svcs := map[string]bool{}
+					for _, t := range targets {
+						if !svcs[t[0]] {
+							svcs[t[0]] = true
+							faults = append(faults, faultSpec{Svc: t[0], Target: "*", Kind: k})
+						}
+					}
+				default: // one or two individual requests
+					n := 1 + r.Intn(2)
+					for j := 0; j < n; j++ {
+						t := targets[r.Intn(len(targets))]
+						faults = append(faults, faultSpec{Svc: t[0], Target: t[1], Kind: faultKinds[r.Intn(len(faultKinds))]})
+					}
+				}
+			}
+			if len(opts.failing) > 0 {
+				for _, f := range faults {
+					if f.Kind == "errors_partial" || f.Kind == "errors_null" {
+						opts.failing = nil // a whole-service claim is only made for hard failures
+					}
+				}
+			}
+			env.world.faultFor = makeFaultFor(env.fed, faults)
+			opts.faults = faults
+			in["faults"] = faults
+		}
+		run, err := env.run(q, vars, hdr)
 		if err != nil {
 			return err
 		}
-		w.add(name, emitE2ECase(env, run, e2eCaseOpts{max: 50, conforming: true}))
-		in := map[string]interface{}{"fixture": env.fx.Name, "query": q, "variables": vars, "gateway_data": fmt.Sprint(run.Resp.Data), "gateway_errors": errorSummary(run.Resp.Errors)}
+		env.world.faultFor = nil
+		in["gateway_data"] = fmt.Sprint(run.Resp.Data)
+		in["gateway_errors"] = errorSummary(run.Resp.Errors)
+		if len(run.Resp.Body) > 60000 {
+			i--
+			continue // keep case files small
+		}
+		w.add(name, emitE2ECase(env, run, opts))
 		sum.CaseInputs[name] = in
 		if len(sum.Samples) < 4 {
 			sum.Samples = append(sum.Samples, in)
 		}
+		// Go-side oracles
+		if prof == "c16" {
+			for _, o := range mutationOracle(env, run, name, len(faults) > 0) {
+				sum.GoOracle = append(sum.GoOracle, o)
+			}
+		}
 		fv := featureVector(run)
 		sum.Features[env.fx.Name]++
 		sum.Features[fv]++
-		if strings.Contains(fv, "svcs=1 ") && !strings.Contains(q, "...") {
+		for _, f := range faults {
+			sum.Features["fault_"+f.Kind]++
+		}
+		if !conforming {
+			sum.Features["nonconforming_data"]++
+		}
+		if strings.Contains(fv, "svcs=1 ") && !strings.Contains(q, "...") && len(faults) == 0 && prof == "c01" {
 			continue
 		}
-		distinct[fv+q] = true
+		distinct[fv+q+fmt.Sprint(faults)] = true
 	}
 	files, err := w.flush()
 	if err != nil {
@@ -77,4 +254,91 @@ func runC01(cfg runCfg) error {
 	}
 	sum.Cases, sum.Files, sum.Nontrivial = len(w.cases), files, len(distinct)
 	return writeSummary(cfg.out, sum)
+}
+
+// mutationOracle: every root field of the mutation is delivered exactly once (at most once under faults), in a
+// mutation operation, to its owner, same-service fields in the client's order; everything else is a query.
+func mutationOracle(env *e2eEnv, run *e2eRun, name string, faulty bool) []oracleResult {
+	var out []oracleResult
+	add := func(comp string, ok bool, detail string) {
+		out = append(out, oracleResult{Case: name, Component: comp, OK: ok, Detail: detail})
+	}
+	// expected effects per service, in client order, from the operation after @skip/@include (none generated here)
+	x := &execCtx{schema: env.gw.es.MergedSchema, data: env.world.data, vars: coerceVars(run.Doc, run.Vars), fed: env.fed}
+	var cs []*collected
+	x.collect("Mutation", run.Op.SelectionSet, map[string]bool{}, &cs)
+	expected := map[string][]string{}
+	seenKey := map[string]bool{} // fields with the same response key on the same object are one field (CollectFields)
+	var walk func(prefix, parent string, ss ast.SelectionSet)
+	walk = func(prefix, parent string, ss ast.SelectionSet) {
+		for _, s := range ss {
+			switch s := s.(type) {
+			case *ast.Field:
+				if s.Name == "__typename" {
+					continue
+				}
+				owner := env.fed.Owner[parent+"."+s.Name]
+				if owner != "" {
+					if seenKey[prefix+"/"+s.Alias] {
+						continue
+					}
+					seenKey[prefix+"/"+s.Alias] = true
+					expected[owner] = append(expected[owner], s.Name+canonArgs(s.ArgumentMap(x.vars)))
+				} else if env.fed.Namespace[s.Definition.Type.Name()] {
+					walk(prefix+"/"+s.Alias, s.Definition.Type.Name(), s.SelectionSet)
+				}
+			case *ast.InlineFragment:
+				walk(prefix, parent, s.SelectionSet)
+			case *ast.FragmentSpread:
+				walk(prefix, parent, s.Definition.SelectionSet)
+			}
+		}
+	}
+	walk("", "Mutation", run.Op.SelectionSet)
+	got := map[string][]string{}
+	okKinds, okOwner := true, true
+	mutReqs := map[string]int{}
+	for _, rq := range run.Requests {
+		info := analyze(env.fed, rq)
+		if info.Keyword == ast.Mutation {
+			mutReqs[rq.Svc]++
+			if rq.OpType != "mutation" {
+				okKinds = false
+			}
+			got[rq.Svc] = append(got[rq.Svc], rq.Effects...)
+		} else {
+			if rq.OpType != "query" || len(rq.Effects) > 0 {
+				okKinds = false
+			}
+		}
+	}
+	exact := true
+	detail := ""
+	for svc, exp := range expected {
+		g := got[svc]
+		if faulty && len(g) == 0 {
+			continue // the mutation request failed before being applied, or was never sent because of a hard error
+		}
+		// namespaced mutation fields are recorded by the simulator on the namespace object; compare root-level ones
+		if strings.Join(g, ";") != strings.Join(exp, ";") {
+			exact = false
+			detail = fmt.Sprintf("service %s: expected effects %v, got %v", svc, exp, g)
+		}
+	}
+	for svc, g := range got {
+		if _, ok := expected[svc]; !ok && len(g) > 0 {
+			okOwner = false
+			detail = fmt.Sprintf("service %s received effects %v it does not own", svc, g)
+		}
+	}
+	for svc, n := range mutReqs {
+		if n > 1 {
+			exact = false
+			detail = fmt.Sprintf("service %s received %d mutation requests", svc, n)
+		}
+	}
+	add("prop.c16.exactly_once", exact, detail)
+	add("prop.c16.owner_only", okOwner, detail)
+	add("prop.c16.operation_kinds", okKinds, "")
+	return out
 }
